@@ -3,15 +3,15 @@ set -e
 . $MC/par.sh
 H=$VERIF/harness/c05
 CF="-O1 -g -fsanitize=address -fno-omit-frame-pointer -I$REPO -I$MC -I$H"
-par clang++ -std=c++17 -c $CF $H/c05_bfs.cpp -o $BUILD/bfs.o
-par clang++ -std=c++17 -c $CF $H/c05_streams.cpp -o $BUILD/streams.o
+par clang++ -std=c++20 -c $CF $H/c05_bfs.cpp -o $BUILD/bfs.o
+par clang++ -std=c++20 -c $CF $H/c05_streams.cpp -o $BUILD/streams.o
 # The binding of the configurable receiver reads three private members for the BFS key.  If that does not compile
 # (members renamed / restructured by a refactoring) fall back to the public-API-only key (see gs_bind_cfg.cpp).
 bind_cfg() { # $1 compiler, $2 flags, $3 object
-    if $1 -std=c++17 -c $2 -fno-access-control $H/gs_bind_cfg.cpp -o $3 2> $3.full.err; then
+    if $1 -std=c++20 -c $2 -fno-access-control $H/gs_bind_cfg.cpp -o $3 2> $3.full.err; then
         return 0
     fi
-    $1 -std=c++17 -c $2 -DGS_PUBLIC_ONLY $H/gs_bind_cfg.cpp -o $3
+    $1 -std=c++20 -c $2 -DGS_PUBLIC_ONLY $H/gs_bind_cfg.cpp -o $3
     [ "$1" = clang++ ] || return 0   # the note is written once, by the main build
     {
         echo "NOTE: private state names changed, gs_bind_cfg.cpp no longer compiles against gstuff_autorecv's private members"
@@ -26,23 +26,23 @@ bind_cfg() { # $1 compiler, $2 flags, $3 object
     cat $BUILD/notes.txt
 }
 par bind_cfg clang++ "$CF" $BUILD/bind_cfg.o
-par clang++ -std=c++17 -c $CF -DGS_LEGACY_REINIT_SETBUF_ONLY $H/gs_bind_legacy.cpp -o $BUILD/bind_legacy.o
-par clang++ -std=c++17 -c $CF $REPO/igris/protocols/gstuff.cpp -o $BUILD/gstuff.o
+par clang++ -std=c++20 -c $CF -DGS_LEGACY_REINIT_SETBUF_ONLY $H/gs_bind_legacy.cpp -o $BUILD/bind_legacy.o
+par clang++ -std=c++20 -c $CF $REPO/igris/protocols/gstuff.cpp -o $BUILD/gstuff.o
 par clang -c $CF $REPO/igris/protocols/gstuff_v1/autorecv.c -o $BUILD/autorecv_v1.o
 par clang -c $CF $REPO/igris/protocols/gstuff_v1/gstuff.c -o $BUILD/gstuff_v1.o
-par clang++ -std=c++17 -O2 -c -I$MC $MC/mc.cpp -o $BUILD/mc.o
+par clang++ -std=c++20 -O2 -c -I$MC $MC/mc.cpp -o $BUILD/mc.o
 # release-mode variant: gcc -O2 -DNDEBUG (an assert that carries a side effect vanishes in release builds), ASan; re-runs a
 # cheap selection of the sub-checks.
 N=$BUILD/ndebug; mkdir -p $N
 NF="-O2 -g -DNDEBUG -fsanitize=address -fno-omit-frame-pointer -I$REPO -I$MC -I$H"
-par g++ -std=c++17 -c $NF $H/c05_bfs.cpp -o $N/bfs.o
-par g++ -std=c++17 -c $NF $H/c05_streams.cpp -o $N/streams.o
+par g++ -std=c++20 -c $NF $H/c05_bfs.cpp -o $N/bfs.o
+par g++ -std=c++20 -c $NF $H/c05_streams.cpp -o $N/streams.o
 par bind_cfg g++ "$NF" $N/bind_cfg.o
-par g++ -std=c++17 -c $NF -DGS_LEGACY_REINIT_SETBUF_ONLY $H/gs_bind_legacy.cpp -o $N/bind_legacy.o
-par g++ -std=c++17 -c $NF $REPO/igris/protocols/gstuff.cpp -o $N/gstuff.o
+par g++ -std=c++20 -c $NF -DGS_LEGACY_REINIT_SETBUF_ONLY $H/gs_bind_legacy.cpp -o $N/bind_legacy.o
+par g++ -std=c++20 -c $NF $REPO/igris/protocols/gstuff.cpp -o $N/gstuff.o
 par gcc -c $NF $REPO/igris/protocols/gstuff_v1/autorecv.c -o $N/autorecv_v1.o
 par gcc -c $NF $REPO/igris/protocols/gstuff_v1/gstuff.c -o $N/gstuff_v1.o
-par g++ -std=c++17 -O2 -c -I$MC $MC/mc.cpp -o $BUILD/mc_gcc.o
+par g++ -std=c++20 -O2 -c -I$MC $MC/mc.cpp -o $BUILD/mc_gcc.o
 parwait
 g++ -fsanitize=address $N/bfs.o $N/streams.o $N/bind_cfg.o $N/bind_legacy.o $N/gstuff.o $N/autorecv_v1.o $N/gstuff_v1.o $BUILD/mc_gcc.o -o $BUILD/c05_ndebug
 LIB="$BUILD/bind_cfg.o $BUILD/bind_legacy.o $BUILD/gstuff.o $BUILD/autorecv_v1.o $BUILD/gstuff_v1.o $BUILD/mc.o"
